@@ -28,9 +28,9 @@ CLAIMED = {
             "Proof: one pass or two passes over any valid grouping of the chunks store exactly the per-pixel sum of all records; independent of split, chunk order and pre-sorting. Real create_cooler(ordered=False) and `cooler load` are compared with the Lean aggregate; temp directory observed.",
             "Trusted: Lean kernel; model tied by correspondence; tempfile lifetime observed not proved; linspace edges are a free unit checked by contract."),
     "C07": ("DESIGN.md §5 C07",
-            "Lean 4 theorems (merger_eq_spec for every valid epoch partition, merge_comm, merge_assoc, merge_sum, buffer independence) + exhaustive-mergebuf differential correspondence with merge_coolers, refusal and dtype-limit cases",
+            "Lean 4 theorems (merger_eq_spec and merger_agg_eq_spec for every valid epoch partition and ANY aggregation function, breakpoints_contract, merge_comm, merge_assoc, merge_sum, buffer independence) + exhaustive-mergebuf differential correspondence with merge_coolers, refusal and dtype-limit cases",
             "Proof: for strictly sorted inputs and ANY valid partition the streaming k-way merger yields exactly the per-pixel aggregate in storage order; the aggregate is commutative, associative and preserves totals. Real merge_coolers is run for every mergebuf 1..sum(nnz)+1 and input order and compared with Lean mergeSpec; incompatible inputs must be refused; overflowing aggregates must err.",
-            "Trusted: Lean kernel; model tied by correspondence; pandas groupby/concat primitives; merge_breakpoints is a free unit checked by contract; non-sum aggregations checked by correspondence only."),
+            "Trusted: Lean kernel; model tied by correspondence; pandas groupby/concat primitives; merge_breakpoints is a free unit checked by contract (and the modelled loop is proved to satisfy it); any aggregation function is covered by merger_agg_eq_spec on integer columns."),
     "C11": ("DESIGN.md §5 C11",
             "Lean 4 theorems (spans_cover_once, partition_cover_once, marginal_split over any commutative monoid and any permutation of chunk results, balance_data_only) + differential runs of the real split-apply-combine pipeline and balance_cooler under every chunk size and many map implementations",
             "Proof: the spans the code builds cover every stored pixel exactly once for every chunk size; any additive per-chunk functional folded in any completion order equals its value on the whole table. The real pipeline is run bit-exactly on integer data under sequential, lazy, pool and adversarially permuted maps with a visit log; full balance runs are compared across schedules.",
